@@ -259,6 +259,9 @@ int _GD_MogrifyFile(DIRFILE* D, gd_entry_t* E, unsigned long encoding,
       {
         E->e->u.raw.file[0].name = temp.name;
         E->e->u.raw.file[0].subenc = temp.subenc;
+        /* remove the copy unless it has been moved or removed already */
+        _GD_FiniRawIO(D, E, new_fragment, GD_FINIRAW_CLOTEMP |
+            GD_FINIRAW_DISCARD);
       } else if ((subencoding != temp.subenc || strcmp(E->e->u.raw.filebase,
               new_filebase) || D->fragment[new_fragment].dirfd !=
             D->fragment[E->fragment_index].dirfd) && (*enc_in->unlink)(
